@@ -12,7 +12,7 @@ m = {
         "guard": "verif",
         "enable": "every check rebuilds its engine with: go test -c -tags verif,intest -overlay .build/overlay.json -modfile .build/go.mod (tools/vbuild.py); "
                   "the overlay maps /verif/sim into the module as virtual packages and adds verif-tagged export shims; hooks committed to /repo are listed in source_commits",
-        "baseline_off_cmd": "cd /repo && go build ./... && go test -mod=mod -vet=off -count=1 -timeout 25m ./...",
+        "baseline_off_cmd": "cd /repo && go build ./... && go test -mod=mod -vet=off -count=1 -timeout 25m ./... && cd integration_tests && go test -mod=mod -vet=off -count=1 -timeout 25m ./...",
         "source_commits": HOOK_COMMITS,
         "add_only": True,
     },
